@@ -106,3 +106,42 @@ Lemma clone_gets_its_own_h2_transport :
   [ (bs "tt.t2", bs "=",
      bs "&h2internal.Transport{Options,AllowHTTP,MaxHeaderListSize,StrictMaxConcurrentStreams,ReadIdleTimeout,PingTimeout,WriteByteTimeout,ConnectionFlow,Settings,HeaderPriority,PriorityFrames}") ].
 Proof. reflexivity. Qed.
+
+(* ---------- the asked-gzip flag travels with the request ---------- *)
+
+(* whatever exchanges went before on the connection - with or without a body, asked or not - exchange k
+   is answered from its own request: the prefix of a run does not matter *)
+Lemma live_run_prefix_irrelevant st pre1 pre2 lc1 lc2 cur q ended r :
+  last (live_run (live_exchange st) lc1 (pre1 ++ [(cur, q, ended, r)])) r =
+  last (live_run (live_exchange st) lc2 (pre2 ++ [(cur, q, ended, r)])) r.
+Proof.
+  rewrite !live_run_current, !map_app. cbn [map]. now rewrite !last_last.
+Qed.
+
+(* the flag kept on the connection (NOT the code): a plain GET answered 204, then - on the same
+   connection - a request with the caller's own Accept-Encoding: gzip answered with gzip: decoded,
+   where the code hands the response over untouched *)
+Definition q_caller_gzip : reqshape := {| rq_ae := bs "gzip"; rq_range := []; rq_head := false |}.
+Definition r_no_content : resp :=
+  {| r_ce := []; r_clh := []; r_other := []; r_cl := 0%Z; r_unc := false; r_body := Raw []; r_short := false |}.
+Definition r_gz : resp :=
+  {| r_ce := [bs "gzip"]; r_clh := [bs "4"]; r_other := []; r_cl := 4%Z; r_unc := false;
+     r_body := Raw (bs "zzzz"); r_short := false |}.
+
+Lemma connflag_refuted :
+  let steps := [(s_off, q_plain, false, r_no_content); (s_off, q_caller_gzip, false, r_gz)] in
+  h1_run_connflag {| pc_added := false |} steps =
+    [r_no_content; rewrite r_gz (Lazy Gzip (bs "zzzz"))] /\
+  live_run (live_exchange H1) {| lc_opened := s_off; lc_exchanges := 0 |} steps = [r_no_content; r_gz] /\
+  (* with a body in the first answer the variant is fine: the fault needs the bodiless step *)
+  h1_run_connflag {| pc_added := false |} [(s_off, q_plain, false, r_deflate); (s_off, q_caller_gzip, false, r_gz)] =
+    [r_deflate; r_gz].
+Proof. vm_compute. repeat split. Qed.
+
+(* read off transport.go: the flag is a field of the value roundTrip sends to readLoop with the request
+   (a key of the requestAndChan literal), used through that value (`rc.`) - not a connection field *)
+Lemma added_gzip_travels_with_the_request :
+  h1_added_gzip_sites =
+  [ (bs "readLoop", bs "use", bs "rc.addedGzip");
+    (bs "roundTrip", bs "set", bs "addedGzip: requestedGzip") ].
+Proof. reflexivity. Qed.
